@@ -2021,3 +2021,207 @@ def m2(prog, tier="quick"):
     if bad:
         findings.append({"key": key, "where": "libzwerg/" + nxt[0]["l"], "msg": bad, "detail": None})
     return inst, findings
+
+
+# ---------------------------------------------------------------------------
+# I2 / I3: the root and parent tables of cache.cc, interpreted against an abstract libdw
+
+def i2(prog):
+    """root_cache::is_root and parent_cache::find (with populate_unit / recursively_populate_unit) interpreted from source on two
+    abstract Dwarf files that share section offsets, with units whose root DIEs carry any tag (compile, partial, type, skeleton, an
+    unknown one), queried in several orders (so the tables are filled by different first queries): `?root` holds exactly for the unit
+    DIEs of the DIE's own file; the parent of every DIE is the stored parent, of a unit DIE `none`."""
+    import itertools
+    from cxxobj import CxxEvaluator, Obj, Struct, Sym, Vec, It, MapObj, OutOfBounds
+    from absint import Thrown
+    inst, findings = [], []
+    isroot = prog.func_opt("root_cache::is_root")
+    pfind = prog.func_opt("parent_cache::find")
+    if isroot is None or pfind is None:
+        raise Broken("anchors root_cache::is_root / parent_cache::find vanished")
+    NO_OFF = (1 << 64) - 1
+
+    class N:
+        def __init__(self, dw, off, tag, parent=None):
+            self.dw, self.off, self.tag, self.parent, self.kids = dw, off, tag, parent, []
+            if parent is not None:
+                parent.kids.append(self)
+
+        def root(self):
+            return self if self.parent is None else self.parent.root()
+
+        def __repr__(self):
+            return "%s@%#x" % (self.dw.name, self.off)
+
+    class Dw:
+        def __init__(self, name, addr):
+            self.name, self.addr, self.units = name, addr, []
+
+    def build(name, addr, tags):
+        dw = Dw(name, addr)
+        off = 0x0b
+        for t in tags:
+            r = N(dw, off, t)
+            dw.units.append(r)
+            a = N(dw, off + 0x10, 0x13, r)
+            N(dw, off + 0x14, 0x0d, a)
+            N(dw, off + 0x18, 0x0d, a)
+            N(dw, off + 0x20, 0x34, r)
+            off += 0x40
+        return dw
+    # compile_unit 0x11, partial_unit 0x3c, type_unit 0x41, skeleton_unit 0x4a, 0x4999 (vendor/unknown)
+    D1 = build("file1", 0x1000, [0x11, 0x3c, 0x4a])
+    D2 = build("file2", 0x2000, [0x41, 0x4999])
+
+    def all_nodes(dw):
+        out = []
+
+        def rec(n):
+            out.append(n)
+            for k in n.kids:
+                rec(k)
+        for u in dw.units:
+            rec(u)
+        return out
+
+    def die_of(n):
+        d = Struct("Dwarf_Die", {})
+        d.node, d.cu = n, n.root()
+        return d
+
+    def fill(dst, n):
+        dst.node, dst.cu = n, n.root()
+        return dst
+
+    def sibling(ev, o, a):
+        n = a[0].node
+        if n.parent is None:
+            return 1
+        sibs = n.parent.kids
+        i = sibs.index(n)
+        if i + 1 < len(sibs):
+            fill(a[1], sibs[i + 1])
+            return 0
+        return 1
+
+    def child(ev, o, a):
+        n = a[0].node
+        if n.kids:
+            fill(a[1], n.kids[0])
+            return True
+        return False
+
+    def cu_iter(ev, o, a):
+        dw = a[0]
+        if isinstance(dw, It):
+            return dw.copy_value()
+        return It(Vec([die_of(u) for u in dw.units], "units"), 0)
+
+    def cu_end(ev, o, a):
+        return ("cu-end",)
+
+    def it_ne(ev, o, a):
+        l, r = (o, a[0]) if o is not None and len(a) == 1 else (a[0], a[1])
+        if isinstance(r, tuple) and r and r[0] == "cu-end":
+            return l.pos < len(l.vec.items)
+        raise Broken("cu_iterator compared with something that is not its end")
+    hooks = {
+        "dwarf_cu_getdwarf": lambda ev, o, a: a[0].dw,
+        "dwarf_dieoffset": lambda ev, o, a: a[0].node.off,
+        "dwarf_tag": lambda ev, o, a: a[0].node.tag,
+        "dwarf_diecu": lambda ev, o, a: fill(a[1], a[0].node.root()),
+        "dwarf_siblingof": sibling,
+        "dwpp_child": child,
+        "ctor:cu_iterator": cu_iter,
+        "cu_iterator::end": cu_end,
+        "cu_iterator::operator!=": it_ne,
+        "cu_iterator::operator*": lambda ev, o, a: o.deref(),
+        "cu_iterator::operator++": lambda ev, o, a: (setattr(o, "pos", o.pos + 1), o)[1],
+        "throw_libdw": lambda ev, o, a: (_ for _ in ()).throw(Thrown("libdw error")),
+    }
+    ev = CxxEvaluator(hooks, {"parent_cache::no_off": NO_OFF}, prog=prog)
+    nodes = all_nodes(D1) + all_nodes(D2)
+    orders = [nodes, list(reversed(nodes)), nodes[7:] + nodes[:7], [n for n in nodes if n.parent is not None] + [n for n in nodes if n.parent is None]]
+    bad_r = bad_p = None
+    n_eval = 0
+    try:
+        for order in orders:
+            rc, pc = Obj("root_cache"), Obj("parent_cache")
+            rc.m_cache, pc.m_cache = MapObj(), MapObj()
+            for rep_ in range(2):
+                for n in order:
+                    ev.steps = 0
+                    r = ev.call(isroot, rc, [die_of(n)])
+                    n_eval += 1
+                    if bool(r) != (n.parent is None) and bad_r is None:
+                        bad_r = "`?root` answers %s for the DIE %r (tag %#x), which is %sa unit DIE of %s" % (bool(r), n, n.tag, "" if n.parent is None else "not ", n.dw.name)
+                    p = ev.call(pfind, pc, [die_of(n)])
+                    n_eval += 1
+                    want = NO_OFF if n.parent is None else n.parent.off
+                    if p != want and bad_p is None:
+                        bad_p = "the parent table gives %s for the DIE %r; stored parent is %s" % (hex(p) if isinstance(p, int) else p, n, "none" if n.parent is None else hex(want))
+    except OutOfBounds as x:
+        raise Broken("cache.cc cannot be evaluated: %s" % x)
+    except Thrown as x:
+        bad_r = bad_r or "the root / parent tables raise an error (%s) on a well-formed file" % x
+    inst.append(("I2:root_cache::is_root", {"evaluations": n_eval}))
+    inst.append(("I2:parent_cache::find", {"evaluations": n_eval}))
+    if bad_r:
+        findings.append({"key": "I2:root_cache::is_root", "where": "libzwerg/" + isroot["l"],
+                         "msg": bad_r + ": `root` satisfies `?root`, and `unit root` equals `entry ?root`, only if every unit DIE - whatever its tag - and nothing else is a root", "detail": None})
+    if bad_p:
+        findings.append({"key": "I2:parent_cache::find", "where": "libzwerg/" + pfind["l"], "msg": bad_p + ": every DIE yielded by `child` of D must have D as `parent`", "detail": None})
+    return inst, findings
+
+
+def x5(prog):
+    """`value` on a location operation yields the first operand's values, then the second's: op_value_loclist_op::operate and
+    value_producer_cat (constructors and next) interpreted from source with the two operand decoders summarised as producers of 0-2
+    tagged values each; all nine combinations, each drained to exhaustion and asked once more."""
+    from cxxobj import CxxEvaluator, Obj, Sym, OutOfBounds
+    from absint import Thrown
+    inst, findings = [], []
+    f = prog.func_opt("op_value_loclist_op::operate")
+    nx = [g for g in prog.funcs.values() if g["q"].startswith("value_producer_cat<") and g["n"] == "next" and g.get("body") is not None]
+    if f is None or not nx:
+        raise Broken("anchors op_value_loclist_op::operate / value_producer_cat::next vanished")
+
+    class P:
+        def __init__(self, vals):
+            self.vals = list(vals)
+            self.addr = id(self)
+    hooks = {"dwop_number": lambda ev, o, a: P(a[2]["one"]), "dwop_number2": lambda ev, o, a: P(a[2]["two"]),
+             "method:next": lambda ev, o, a: (o.vals.pop(0) if o.vals else None) if isinstance(o, P) else (_ for _ in ()).throw(Broken("next() on an unmodelled producer"))}
+    ev = CxxEvaluator(hooks, {}, prog=prog)
+    key = "X5:value-of-operation"
+    bad = None
+    n = 0
+    for n1 in range(3):
+        for n2 in range(3):
+            a = Obj("value_loclist_op")
+            a.m_dwctx, a.m_attr = Sym.of("ctx"), Sym.of("attr")
+            one, two = ["first#%d" % i for i in range(n1)], ["second#%d" % i for i in range(n2)]
+            a.m_dwop = {"one": one, "two": two}
+            try:
+                r = ev.call(f, Obj("op_value_loclist_op"), [a])
+                got = []
+                for _ in range(n1 + n2 + 2):
+                    v = ev.call(nx[0], r, [])
+                    n += 1
+                    if v is None:
+                        break
+                    got.append(v)
+                again = ev.call(nx[0], r, [])
+            except OutOfBounds as x:
+                bad = bad or "`value` on an operation: %s" % x
+                continue
+            except Thrown as x:
+                bad = bad or "`value` on an operation raises an error (%s)" % x
+                continue
+            if (got != one + two or again is not None) and bad is None:
+                bad = "`value` on an operation whose first operand decodes to %s and second to %s yields %s%s; expected the first operand's values, then the second's" % (
+                    one, two, got, "" if again is None else " and %r after exhaustion" % again)
+    inst.append((key, {"next_calls": n}))
+    if bad:
+        findings.append({"key": key, "where": "libzwerg/" + f["l"], "msg": bad, "detail": None})
+    return inst, findings
